@@ -1,5 +1,6 @@
 import ACModel.Props.C01
 import ACModel.Proofs.Rows
+import ACModel.Props.C04
 /-
   C02 — Carved features respect max_n_mod, min_freq_mod and dev robustness
 
@@ -334,6 +335,25 @@ theorem stage2_rows (cfg : Cfg) (hns : cfg.sortGroupsByLabel = false) (train : T
   have hcov := covers_of_nanPlacement hmem hnd hcol
   refine ⟨fun k hk => Nat.lt_of_lt_of_le (fitted_labels_bounded col w.comb hcov k hk) hle, ?_⟩
   exact fitted_groups_frequent cfg hns train.rows col w.comb hc hcov (viable_train hv).1
+
+/-! ## … and the group index is what `transform` outputs -/
+
+/-- **The transformed column is the column of group indices, label by label**: for a fitted qualitative feature (order `g`,
+    one label per group), every accepted row whose value belongs to a group comes out with the label whose position is the
+    index of that group (`groupIdx` over the groups in fitted order) — the column `col.map (groupIdx comb)` of the
+    frequency theorems above, read through the labels. -/
+theorem transform_label_is_groupIdx (f : String) (g : GL) (hwf : g.WF) (labels : List Val) (strNan strDefault : Option String)
+    (cin cout : Col) (h : Disc.transformQualCol f g (Disc.tableOf g labels) strNan strDefault cin = .ok cout)
+    (hlen : labels.length = g.lst.length) (hnd : (g.lst.map g.get).flatten.Nodup)
+    (k : Nat) (v : Val) (hk : cin[k]? = some (some v)) (hv : v ∈ (g.lst.map g.get).flatten) :
+    ∃ hi : groupIdx (g.lst.map g.get) v < labels.length,
+      cout[k]? = some (some (labels[groupIdx (g.lst.map g.get) v]'hi)) := by
+  have hlt := groupIdx_lt (g.lst.map g.get) v hv
+  have hi : groupIdx (g.lst.map g.get) v < g.lst.length := by simpa using hlt
+  have hmem := (groupIdx_eq_iff (g.lst.map g.get) _ hlt v hnd).1 rfl
+  rw [List.getElem_map] at hmem
+  refine ⟨by omega, ?_⟩
+  exact C04.transformQualCol_member f g hwf labels strNan strDefault cin cout h k _ hi (by omega) v hk hmem
 
 /-! ## Non-vacuity -/
 private def t0 : List (String × Row) :=
